@@ -224,17 +224,27 @@ func (f *formatter) FormatSchema(schema *ast.Schema) {
 			f.IncrementIndent()
 		}
 	}
-	if schema.Query != nil && schema.Query.Name != "Query" {
+	// The schema definition may only be left out when loading the output infers the same root
+	// operation types from the type names Query, Mutation and Subscription; when it is written,
+	// it has to name every root, because a schema definition switches that inference off.
+	inferable := func(root *ast.Definition, name string) bool {
+		if root == nil {
+			return schema.Types[name] == nil
+		}
+		return root.Name == name
+	}
+	explicit := !inferable(schema.Query, "Query") || !inferable(schema.Mutation, "Mutation") || !inferable(schema.Subscription, "Subscription")
+	if explicit && schema.Query != nil {
 		startSchema()
 		f.WriteWord("query").NoPadding().WriteString(":").NeedPadding()
 		f.WriteWord(schema.Query.Name).WriteNewline()
 	}
-	if schema.Mutation != nil && schema.Mutation.Name != "Mutation" {
+	if explicit && schema.Mutation != nil {
 		startSchema()
 		f.WriteWord("mutation").NoPadding().WriteString(":").NeedPadding()
 		f.WriteWord(schema.Mutation.Name).WriteNewline()
 	}
-	if schema.Subscription != nil && schema.Subscription.Name != "Subscription" {
+	if explicit && schema.Subscription != nil {
 		startSchema()
 		f.WriteWord("subscription").NoPadding().WriteString(":").NeedPadding()
 		f.WriteWord(schema.Subscription.Name).WriteNewline()
